@@ -56,6 +56,20 @@ def make_texts(rng, tier):
              'rule "x" begin end', BASE, 'rule "x" begin /* c */ end', 'rule "x" "d" "e" begin end', 'rule "x" begin a = "unterminated end', 'rule "x" begin a = 1 // c']
     for t in fixed:
         texts.append(("fixed", t))
+    # truncations: every token-boundary PREFIX and SUFFIX of one valid two-rule text (a text cut right after `rule`, after the
+    # name, inside the header, inside a body ...), and keyword-only texts: the places where error recovery of the parser has
+    # nothing left to consume
+    two = rule_text("a", 5, "d1", "x = 1 + f(2) return x") + "\n" + rule_text("b", -3, "d2", "if a > 1 { b = 2 }")
+    toks = tokens_of(two)
+    cuts = range(1, len(toks)) if tier != "quick" else sorted(set(list(range(1, 10)) + list(range(10, len(toks), 3)) + [len(toks) - 1, len(toks) - 2]))
+    for i in cuts:
+        texts.append(("prefix", " ".join(toks[:i])))
+    for i in (range(1, len(toks)) if tier != "quick" else range(1, len(toks), 4)):
+        texts.append(("suffix", " ".join(toks[i:])))
+    for kw in ["rule", "rule rule", "begin", "end", "rule end", "rule begin", "rule begin end", "salience", "rule salience", 'rule "a"', 'rule "a" "d"', 'rule "a" salience',
+               'rule "a" salience -', 'rule "a" begin', two + " rule", two + " rule rule", two + ' rule "c"', "rule " + two, two + " end", two + " begin"]:
+        texts.append(("truncated", kw))
+    n += len(texts) - len(fixed)
     while len(texts) < n:
         x = rng.random()
         v, _ = valid_text(rng)
@@ -200,7 +214,7 @@ def main(run):
     cov = run.coverage
     cov["discharged"] += (1 if ok and not bad else 0) + (0 if problems else 1)
     cov.update({"evaluations": len(texts) * 5, "distinct_nontrivial": len(nontrivial),
-                "rule": "three streams: valid multi-rule texts over 11 body shapes (~38%), token-level mutations of valid texts — delete / replace / insert / swap of 1-3 tokens over a 70-token vocabulary with unknown characters, keyword case variants, unterminated strings and comments, huge literals (~47%), arbitrary bytes incl. NUL and non-ASCII (~15%), plus 16 fixed texts; every text is submitted to all five entry points from a known 3-rule state, and every third text (and all fixed texts) also from the EMPTY state (fresh builder / cleared pool); "
+                "rule": "truncations first: token-boundary prefixes and suffixes of a valid two-rule text and 20 keyword-only / cut-off headers (where the parser's error recovery has nothing left to consume); then three streams: valid multi-rule texts over 11 body shapes (~38%), token-level mutations of valid texts — delete / replace / insert / swap of 1-3 tokens over a 70-token vocabulary with unknown characters, keyword case variants, unterminated strings and comments, huge literals (~47%), arbitrary bytes incl. NUL and non-ASCII (~15%), plus 16 fixed texts; every text is submitted to all five entry points from a known 3-rule state, and every third text (and all fixed texts) also from the EMPTY state (fresh builder / cleared pool); "
                         "checked: returned normally (no panic / crash), pairwise accept/reject agreement, exact state equality on reject, on accept the state equals the replacement / merge of the rules the text defines, sortedness and index consistency afterwards; "
                         "distinct non-trivial = distinct texts that are valid with >= 2 rules, or mutated, or on which the entry points disagree",
                 "streams": stream_stats, "entry_points": ENTRIES5, "traces_validated_against_impl": len(texts),
